@@ -64,6 +64,9 @@ def generate_burst(seed: int, tier: str, index: int) -> dict:
         reqs = [dict(o) for o in rng.sample(ops, n)]
         script.append({"op": "burst", "requests": reqs, "sched": rng.getrandbits(32), "same_token": True,
                        "service": service})
+        if rng.random() < 0.6:
+            # the token of the burst once more, after the dust has settled: whatever the race left behind, it was used
+            script.append({"op": "replay", "which": rng.randrange(n)})
     actor = {"id": "probe", "kind": "burster", "role": rng.choice(["media", "media", "admin"]),
              "prng": rng.getrandbits(32), "latency": {"min_us": 1000, "jitter_us": 0}, "script": script}
     return {"property": ID, "seed": seed, "index": index, "tier": tier, "hashseed": index % base.HASHSEEDS,
@@ -151,11 +154,29 @@ class BurstOracle:
 
     def __init__(self, sim: Sim) -> None:
         self.sim = sim
+        self.last_token: str | None = None
+        self.last_accepted = False
+        self.last_statuses: list[int] = []
+
+    @staticmethod
+    def plain(t: str) -> str:
+        for _ in range(4):
+            t2 = urllib.parse.unquote(t)
+            if t2 == t:
+                break
+            t = t2
+        return t
 
     def on_burst(self, actor, st: dict, reqs: list[dict], outcome: dict) -> None:
         from ..actors.burster import token_of
         sim = self.sim
         tok = token_of(reqs[0])
+        self.last_token = None
+        if st.get("same_token") and tok is not None and all(token_of(r) == tok for r in reqs):
+            self.last_token = tok
+            # the durable state changed: some request of the burst got past the token check
+            self.last_accepted = bool(outcome.get("changed"))
+            self.last_statuses = [r.status for r in outcome["results"]]
         if not st.get("same_token") or tok is None or any(token_of(r) != tok for r in reqs):
             return
         sim.check("c15-csrf-concurrent")
@@ -181,6 +202,24 @@ class BurstOracle:
                         f"concurrently (statuses {ok_status}): "
                         f"{[r['method'] + ' ' + urllib.parse.urlsplit(r['url']).path for r in reqs]}; schedule "
                         f"{[(t, l) for t, l in outcome['schedule']][:40]}")
+
+
+    def on_replay(self, actor, st: dict, req: dict, resp, before: list[str], after: list[str]) -> None:
+        sim = self.sim
+        sim.check("c15-csrf-replay-after-burst")
+        tok = self.last_token
+        if tok is None:
+            return
+        pt = self.plain(tok)
+
+        def uses(rows):
+            return sum(1 for j in map(self.plain, rows)
+                       if j == pt or (len(j) >= 16 and pt.startswith(j[:8]) and pt.endswith(j[8:])))
+        if self.last_accepted and uses(after) > uses(before):
+            sim.violate("csrf-token-used-twice", f"{req['recipe']['op']}/after=concurrent+replay",
+                        f"the token of a burst (accepted there: statuses {self.last_statuses}) was accepted once more "
+                        f"when {req['method']} {urllib.parse.urlsplit(req['url']).path} was sent again on its own "
+                        f"(status {resp.status}); records of the token before {uses(before)}, after {uses(after)}")
 
 
 class StateOracle:
